@@ -14,7 +14,7 @@ REGEN = {'csvprofile': _regen_csvprofile}
 def _extra(ctx, spec):
     """the edge stream (quotes, separators, `|`, line breaks, description scales, arbitrary float bits): run on the
     implementation only; its divergences are counted into the evidence, not asserted — except that nothing may panic"""
-    import framework as F
+    import framework as F, os
     ops, impl, stats = F.run_family(ctx, 'csvedge')
     cats = {}
     for a in impl:
@@ -23,6 +23,16 @@ def _extra(ctx, spec):
     ctx.cov.setdefault('extra', {})['csvedge'] = dict(ops=len(ops), outcomes=cats)
     ctx.cov['extra_evaluations'] = ctx.cov.get('extra_evaluations', 0) + len(ops)
     ctx.log(f'edge stream: {len(ops)} ops, outcomes {cats}')
+    # how many generated inputs of the checked stream are inside `csvUnambiguousB`, and which conjunct the others fail
+    try:
+        cops = [l.split('\t', 1)[0] for l in open(os.path.join(ctx.work, 'csv.impl.tsv')) if l.startswith('csv ')]
+        why = {}
+        for a in F.run_driver(cops, mode='--spec'):
+            why[a] = why.get(a, 0) + 1
+        ctx.cov['extra']['scope'] = why
+        ctx.log(f'scope of the {len(cops)} csv inputs: {why}')
+    except Exception as e:
+        ctx.log('scope count failed', e)
 
 
 PROP = dict(
@@ -31,22 +41,25 @@ PROP = dict(
     theorems=['Fit.C19.C19_columns', 'Fit.C19.C19_columns_trim', 'Fit.C19.C19_tables', 'Fit.C19.C19_field_roundtrip_raw', 'Fit.C19.C19_raw_roundtrip_partial', 'Fit.C19.C19_scaled_roundtrip', 'Fit.C19.C19_sequences_partial',
               'Fit.C19.C19_scalar_roundtrip_raw', 'Fit.C19.C19_scaled_roundtrip_profile', 'Fit.C19.C19_array_roundtrip', 'Fit.C19.C19_field_roundtrip_value',
               'Fit.C19.C19_unknown_field_roundtrip', 'Fit.C19.C19_dev_field_roundtrip', 'Fit.C19.C19_dev_float_scale_fixed', 'Fit.C19.C19_subfield_roundtrip', 'Fit.C19.C19_removes_expansion_targets',
-              'Fit.C19.C19_roundtrip_partial'],
-    families=[dict(name='csv', prop=True)],
+              'Fit.C19.C19_roundtrip_partial', 'Fit.C19.C19_roundtrip', 'Fit.C19.C19_roundtrip_convert', 'Fit.C19.C19_sequences',
+              'Fit.C19.C19_copy_all_lines', 'Fit.C19.C19_copy_long_line_fixed',
+              'Fit.C19.C19_int_text_roundtrip', 'Fit.C19.C19_csv_quoting_roundtrip', 'Fit.C19.C19_lines_roundtrip', 'Fit.C19.C19_columns_text', 'Fit.C19.C19_roundtrip_text'],
+    families=[dict(name='csv', prop=True), dict(name='csvtext', prop=True)],
     extra=_extra,
     trusted_base=STD_TRUST + [
         "the profile as the converters see it (factory fields: name, units, base type, array, scale/offset bits, component targets, sub-fields and their maps; MesgNum.String(); the reader's mesgNumLookup / fieldNumLookup through the verif hooks) is printed from the compiled packages on every run (Generated/CsvProfile.lean)",
-        "text layer assumed, not modelled: strconv (decimal ↔ integer, shortest float text ↔ float64), encoding/csv quoting, unicode.IsPrint",
+        "text layer: decimal integers (strconv.FormatInt/FormatUint/Itoa, ParseInt/ParseUint base 0 with bit sizes 8..64), writeCell quoting, the value cells, lines, header, the padding pass and encoding/csv (record by record, settings of NewCSVToFITConv) are MODELLED (FitModel/CsvText.lean) and tied byte for byte by the families csvtext / csvparse; still assumed: float text (strconv.FormatFloat / ParseFloat: the explicit hypothesis FloatOK of C19_roundtrip_text / C19_columns_text), unicode.IsPrint beyond ASCII (bytes >= 0x80 are taken as parts of printable runes), base prefixes / '_' separators of ParseInt base 0 (unmodelled, never written by FormatInt)",
         "the arithmetic of the scaled mode is a parameter of the model, instantiated by Arith.so = kit/scaleoffset + fitcsv.parseValue over the bit-exact binary64 of FitModel/F64.lean (the definitions of C12); the driver runs it and the `csvarith` operations compare it with fitcsv.VerifFormat / VerifParseValue on every (base type, scale, offset) of the profile; C12_csv discharges the round-trip hypothesis for every scaled profile field (integer types up to 32 bits; no 64-bit field of the profile is scaled)",
+        "degrees option: ToSemicircles(ToDegrees(s)) is computed over the same binary64 model (FitModel/TimeAngle.lean) and is the identity on every int32 pattern by C12_semicircles; the float text in between is assumed as for every float; compared with the implementation on every run (positions incl. extremes and the invalid value)",
         "text layer assumed, in particular: the text of a scaled value contains a '.' (true for x.0 and for every mantissa of more than one digit; a one-digit mantissa with exponent below -4 such as 1e-05 has none — not produced by any (scale, raw) of the profile)",
-        "encoder and decoder between the two converters are those of C01/C10; the family feeds messages that are a fixed point of encode→decode",
+        "encoder and decoder between the two converters are those of C01/C10; the family feeds messages that are a fixed point of encode→decode; the encoder's validator is modelled as far as it decides success (gateSeq) and proved to pass (C19_roundtrip_convert)",
     ],
-    assumptions=["strings within the safe alphabet (printable, no quote, no `|`); non-empty arrays",
+    assumptions=["strings within the alphabet the formatter keeps (printable, no quote) and without `|`; non-empty arrays; no line break / CR in names and units (a record is one line)",
                  "float→integer conversions of out-of-range values are platform-defined (not reached by round trips)"],
 )
 
 TEXT = dict(
-    technique='Lean 4 proof on a cell-level model of fit_to_csv.go / csv_to_fit.go over the regenerated profile table + differential tie driving the real converters in-process (FITToCSVConv as decoder listener with message copy, CSVToFITConv, decode)',
-    text='C19_columns / _trim for any list of lines; C19_tables (regenerated profile and lookup tables consistent, kernel-decided); cell level: C19_scalar_roundtrip_raw, C19_array_roundtrip, C19_field_roundtrip_raw / _value, C19_scaled_roundtrip_profile (default scaled mode, unconditional for the profile: arithmetic discharged by C12), C19_unknown_field_roundtrip (verbose), C19_dev_field_roundtrip, C19_subfield_roundtrip (substitution, placeholder, reversal), C19_removes_expansion_targets; file level: C19_roundtrip_partial / C19_sequences_partial for chains of files whose messages consist of known fields (scalar/array, raw/unscaled/scaled) and unknown fields/messages (kept with verbose, dropped without), any number of files; the model is compared with the real converters on generated FIT files over all profile messages (CSV structure, written messages, sequences) and the property predicate is evaluated on the implementation output.',
-    note='Partial: the text layer (strconv, encoding/csv, unicode) is assumed; developer fields and sub-field reversal are proved cell by cell, their message-level composition is tied by the correspondence (C19_roundtrip_full stays a def).',
+    technique='Lean 4 proof on a cell-level model of fit_to_csv.go / csv_to_fit.go over the regenerated profile table and on a character-level model of the CSV text (decimal integers, quoting, encoding/csv) + differential tie driving the real converters in-process (FITToCSVConv as decoder listener with message copy, CSVToFITConv, decode): cells, written messages and sequences (csv), the CSV text byte for byte and the real reader on mutated texts (csvtext, csvparse)',
+    text='C19_roundtrip / C19_roundtrip_convert (theorems for EVERY chain of files within the decidable scope csvUnambiguousB, all options incl. degrees: developer fields through the description lists of writer and reader, any number of sub-field placeholders reverted, component targets removed = the fields flagged expanded, scaled arrays, the encoder gate), C19_sequences; text layer: C19_int_text_roundtrip (parse(format n) = n for ParseInt/ParseUint at every bit size, range and sign errors), C19_csv_quoting_roundtrip (encoding/csv reads back any cells writeCell wrote; commas counted by the padding pass = separators), C19_lines_roundtrip, C19_copy_all_lines (lines of any length: KF-C19-7 fixed), C19_columns_text (every line of the TEXT has the header column count as encoding/csv counts, any files), C19_roundtrip_text (FIT → CSV text → FIT under the explicit float-text hypothesis FloatOK); C19_columns / _trim, C19_tables and the cell-level theorems (scalar, array, scaled with the arithmetic of C12, unknown, developer, sub-field) as before. The scope predicate is evaluated by the driver on every generated input (about 95 % inside; reasons of the rest counted into the evidence) and the property predicate on the implementation output.',
+    note='Float text (strconv.FormatFloat/ParseFloat) and unicode.IsPrint beyond ASCII stay assumptions (FloatOK is an explicit hypothesis, not an axiom); the degrees arithmetic is a parameter taken as the identity. Finding of this wave: KF-C19-7 (64 KiB line limit of the padding pass), fixed in /repo a4f13c7.',
 )
